@@ -247,6 +247,11 @@ fn grid() -> Vec<(String, Params)> {
         ];
         p.layout = (2, true, false);
         g.push(("long+suffix-shared".into(), p));
+        // every pair of hash-colliding strings in one table (rows ≥ 2 × pool so that each is referenced)
+        let mut p = grid_params(strs.clone(), Some(0), 240, next());
+        p.pool = (0..tablegen::COLLIDING_PAIRS.len() as u8).map(PoolItem::CollidingPair).collect();
+        p.str_skew = 0;
+        g.push(("hash-colliding-string-pairs".into(), p));
         for (eb, junk) in [(true, false), (false, false), (true, true)] {
             let mut p = grid_params(vec![(U16, 0), (U32, 0), (I8, 0)], Some(1), 4, next());
             p.layout = (0, junk, eb);
